@@ -458,6 +458,9 @@ int main(int argc, char** argv) {
             for (auto tail : { "\n/\n", "\n/\n/\n", "\n", " /\n", "\n 'A' /\n/\n", "\n 1* /\n" }) {
                 fixedDecks.push_back(std::string(kw) + tail);
                 fixedDecks.push_back("RUNSPEC\nDIMENS\n 2 2 1 /\nGRID\n" + std::string(kw) + tail + "PORO\n 4*0.3 /\nSCHEDULE\n" + std::string(kw) + tail);
+                // inside the GRID section of a deck that is complete otherwise (the constructors get as far as the keyword)
+                fixedDecks.push_back("RUNSPEC\nDIMENS\n 2 2 1 /\nOIL\nWATER\nGRID\nDX\n 4*1 /\nDY\n 4*1 /\nDZ\n 4*1 /\nTOPS\n 4*1000 /\n" + std::string(kw) + tail
+                                     + "PORO\n 4*0.3 /\nPERMX\n 4*1 /\nPROPS\nSOLUTION\nSCHEDULE\n");
             }
         // nested INCLUDE chains of tiny files (the text of every loaded file must stay alive and
         // in place while files further down the chain are loaded): depth 1..12, three file shapes
